@@ -1,0 +1,103 @@
+// SPDX-FileCopyrightText: 2026 The Pion community <https://pion.ly>
+// SPDX-License-Identifier: MIT
+
+//go:build verif
+
+package gcc
+
+import (
+	"math"
+	"time"
+
+	"github.com/pion/interceptor/internal/cc"
+)
+
+// VerifLossStep drives one lossBasedBandwidthEstimator.updateLossEstimate call with n
+// acknowledgments of which lost are lost and reports what the branch structure of the
+// update saw and did.
+//
+// incMode / decMode prepare the 200 ms timers first: 0 = armed (zero time), 1 = disarmed
+// (a time in the future), anything else = left as the code set it, unless its age is so
+// close to the threshold that the observation below and the code could disagree (then
+// disarmed).
+//
+// It is a method (not a function) so that a harness can probe for it with an interface
+// assertion. The result is
+//
+//	[nonEmpty, incLoss, incTime, decLoss, decTime, raw, before, after, incSet, decSet]
+//
+// with booleans as 0/1: incLoss is max(averageLoss, lossRatio) < increaseLossThreshold and
+// decLoss is min(averageLoss, lossRatio) > decreaseLossThreshold, evaluated on the
+// estimator's own averageLoss after the update; incTime / decTime are the two time tests
+// on lastIncrease / lastDecrease as they were before the call; raw is the value the
+// selected branch computes before clampInt (0 when no branch is selected); before / after
+// is the bitrate; incSet / decSet say whether the call wrote lastIncrease / lastDecrease.
+func (e *SendSideBWE) VerifLossStep(n, lost, incMode, decMode int) []int64 {
+	lc := e.lossController
+	prep := func(t *time.Time, mode int) {
+		switch mode {
+		case 0:
+			*t = time.Time{}
+		case 1:
+			*t = time.Now().Add(time.Hour)
+		default:
+			if d := time.Since(*t); d > 100*time.Millisecond && d < 400*time.Millisecond {
+				*t = time.Now().Add(time.Hour)
+			}
+		}
+	}
+	lc.lock.Lock()
+	prep(&lc.lastIncrease, incMode)
+	prep(&lc.lastDecrease, decMode)
+	before := lc.bitrate
+	lastInc, lastDec := lc.lastIncrease, lc.lastDecrease
+	incTime := time.Since(lastInc) > increaseTimeThreshold
+	decTime := time.Since(lastDec) > decreaseTimeThreshold
+	lc.lock.Unlock()
+
+	acks := make([]cc.Acknowledgment, n)
+	for i := range acks {
+		if i >= lost {
+			acks[i].Arrival = time.Unix(1, 0)
+		}
+	}
+	lc.updateLossEstimate(acks)
+
+	lc.lock.Lock()
+	defer lc.lock.Unlock()
+	b := func(v bool) int64 {
+		if v {
+			return 1
+		}
+
+		return 0
+	}
+	var incLoss, decLoss bool
+	raw := 0
+	if n > 0 {
+		lossRatio := float64(lost) / float64(n)
+		increaseLoss := math.Max(lc.averageLoss, lossRatio)
+		decreaseLoss := math.Min(lc.averageLoss, lossRatio)
+		incLoss = increaseLoss < increaseLossThreshold
+		decLoss = decreaseLoss > decreaseLossThreshold
+		switch {
+		case incLoss && incTime:
+			raw = int(increaseFactor * float64(before))
+		case decLoss && decTime:
+			raw = int(float64(before) * (1 - 0.5*decreaseLoss))
+		}
+	}
+
+	return []int64{
+		b(n > 0), b(incLoss), b(incTime), b(decLoss), b(decTime), int64(raw), int64(before), int64(lc.bitrate),
+		b(!lc.lastIncrease.Equal(lastInc)), b(!lc.lastDecrease.Equal(lastDec)),
+	}
+}
+
+// VerifLossAverage returns the loss estimator's averageLoss.
+func (e *SendSideBWE) VerifLossAverage() float64 {
+	e.lossController.lock.Lock()
+	defer e.lossController.lock.Unlock()
+
+	return e.lossController.averageLoss
+}
